@@ -53,7 +53,7 @@ def join_lines(lines):
             cur = cur + ' ' + l
             bal += strip_strings_balance(l)
         pat_start = re.match(r'^\|?\s*Token::\w+', cur) is not None
-        if bal > 0:
+        if bal > 0 and not (l.endswith('{') and not cur.startswith('fn rec')):
             continue
         if pat_start and '=>' not in cur:
             continue
